@@ -788,7 +788,7 @@ func init() {
 			if tier == "thorough" {
 				return 20 * time.Minute
 			}
-			return 100 * time.Second
+			return 240 * time.Second
 		},
 		Run: func(c *mc.Ctx) {
 			K, H := 4, 7
